@@ -61,6 +61,42 @@ def evaluate_global(repo: Repo, module: str, name: str):
     return it.global_name(name, mi, None)
 
 
+ORIGINS = ('dspacing', 'energy', 'tof', 'Q', 'wavelength')  # documented start coordinates of graph.tof.elastic
+
+
+def call_public(repo: Repo, module: str, name: str, **kwargs):
+    """Partial evaluation of a public, argument-less-or-concrete factory; returns its single outcome."""
+    T.reset()
+    it = Interp(repo, Model())
+    fi = repo.func(module, name)
+    outs = it.run_all(lambda i: i.call_function(fi, [], dict(kwargs)))
+    if len(outs) != 1:
+        raise AnalysisError(f'{fi.fq}({kwargs}) has {len(outs)} paths for concrete arguments')
+    return outs[0]
+
+
+def elastic_graphs(repo: Repo) -> dict:
+    """origin -> graph as handed out by the public factory graph.tof.elastic(start) (origins without a graph raise KeyError)."""
+    out = {}
+    for origin in ORIGINS:
+        o = call_public(repo, 'conversion.graph.tof', 'elastic', start=origin)
+        if o.kind == 'raise' and o.exc_type == 'KeyError':
+            continue
+        if o.kind != 'return' or not isinstance(o.value, dict) or not o.value:
+            raise AnalysisError(f'graph.tof.elastic({origin!r}) does not return a graph: {o.kind} {o.exc_type}')
+        out[origin] = o.value
+    if 'tof' not in out or 'wavelength' not in out:
+        raise AnalysisError(f'graph.tof.elastic has no graph for tof / wavelength (found {sorted(out)})')
+    return out
+
+
+def beamline_graph(repo: Repo, scatter: bool) -> dict:
+    o = call_public(repo, 'conversion.graph.beamline', 'beamline', scatter=scatter)
+    if o.kind != 'return' or not isinstance(o.value, dict) or not o.value:
+        raise AnalysisError(f'graph.beamline.beamline(scatter={scatter}) does not return a graph: {o.kind} {o.exc_type}')
+    return o.value
+
+
 def history_free(repo: Repo, fis, rule, eff=None):
     """Rule helper: the given functions write to no module-level state, directly or
     through callees (a memo table filled by the first caller makes later results
